@@ -66,6 +66,8 @@ def main() -> int:
         parts = [rescale(obs)]
         from . import extras_pulse
         parts.append(extras_pulse.run(obs))
+        from . import extras_apps
+        parts.append(extras_apps.run(obs))
     except MachineryFailure as exc:
         print(f"MACHINERY-FAILURE extras: {exc}", file=sys.stderr)
         return 2
